@@ -59,3 +59,5 @@ class SimTaskInner(SimTask):
 
 TASK_CLASSES = [SimTask, SimTaskOut, SimTaskInner]
 EMBEDDINGS = ["direct", "list", "dict", "nested", "deep", "meta", "pre", "init", "explicit"]
+# only used by cases without duplicate submissions (it changes the upstream's output object)
+EMBEDDINGS_MUTATING = ["preout"]
